@@ -168,6 +168,34 @@ theorem c09_push_throw (s : State) :
   | nil => simp
   | cons w ws => simp
 
+/-- Bounded backing stores (`Queue` / `CoroQueue` = `primitives::single_item_queue`: capacity 1): they are never
+over-filled … -/
+theorem c09_capacity {s : State} (h : Reachable s) :
+    (∀ n, s.cap = some n → s.items.length ≤ n) ∧ (∀ n, s.wcap = some n → s.waiters.length ≤ n) :=
+  ⟨(reachable_capinv h).items_le, (reachable_capinv h).waiters_le⟩
+
+/-- … because the operation that would over-fill one is refused *without any effect*: a `push` that finds nobody waiting
+and the item store full, and a `pop` that finds the queue empty and the store of parked promises full, leave the state
+exactly as it was and report the store's exception (`Res.full`) - nothing is overwritten, nothing is lost silently;
+every other `push` / `pop` behaves as on the unbounded queue. -/
+theorem c09_full_is_refused (s : State) (p v c : Nat) :
+    (s.waiters = [] → itemsFull s = true → stepPushC s p v = (s, Res.full) ∧ stepPushThrowC s = (s, Res.full)) ∧
+    (¬ (s.waiters = [] ∧ itemsFull s = true) → stepPushC s p v = stepPush s p v ∧ stepPushThrowC s = stepPushThrow s) ∧
+    (s.items = [] → waitersFull s = true → stepPopC s c = (s, Res.full)) ∧
+    (¬ (s.items = [] ∧ waitersFull s = true) → stepPopC s c = stepPop s c) := by
+  unfold stepPushC stepPushThrowC stepPopC
+  refine ⟨?_, ?_, ?_, ?_⟩
+  · intro hw hf; simp [hw, hf]
+  · intro h
+    have : (s.waiters.isEmpty && itemsFull s) = false := by
+      cases hw : s.waiters <;> cases hf : itemsFull s <;> simp_all
+    simp [this]
+  · intro hi hf; simp [hi, hf]
+  · intro h
+    have : (s.items.isEmpty && waitersFull s) = false := by
+      cases hi : s.items <;> cases hf : waitersFull s <;> simp_all
+    simp [this]
+
 /-- `unblock_pop(c)` fails exactly the oldest waiting pop with the given exception and touches nothing else;
 with nobody waiting it reports false and is a no-op. -/
 theorem c09_unblock_oldest (s : State) (c : Nat) :
@@ -204,11 +232,18 @@ theorem c09_quiescent_all_delivered {s : State} (h : Reachable s) (hq : s.inflig
 
 /-- non-vacuity: two consumers parked, two producers, an unblock, a late delivery, destruction -/
 example : Reachable (run init [Op.pop 0, Op.pop 1, Op.push 7 70, Op.pop 0, Op.upop 3, Op.push 8 80, Op.push 7 71,
-    Op.deliver 1, Op.pop 1, Op.pop 1, Op.destroy, Op.deliver 0]) := ⟨_, rfl⟩
+    Op.deliver 1, Op.pop 1, Op.pop 1, Op.destroy, Op.deliver 0]) := ⟨none, none, _, rfl⟩
 example : (run init [Op.pop 0, Op.pop 1, Op.push 7 70, Op.pop 0, Op.upop 3, Op.push 8 80, Op.push 7 71,
     Op.deliver 1, Op.pop 1, Op.pop 1, Op.destroy, Op.deliver 0]).completed =
     [⟨⟨1, 1⟩, Out.exc 3⟩, ⟨⟨3, 1⟩, Out.val ⟨2, 7, 71⟩⟩, ⟨⟨4, 1⟩, Out.canceled⟩, ⟨⟨0, 0⟩, Out.val ⟨0, 7, 70⟩⟩] := by
   decide
+
+/-- non-vacuity, configuration `single_item_queue` for both stores: the second push and the second parked pop are
+refused, the queue carries on -/
+example : (run (initCfg (some 1) (some 1)) [Op.push 0 1, Op.push 0 2, Op.pop 0, Op.pop 0, Op.pop 0, Op.push 0 3,
+      Op.deliver 0]).completed = [⟨⟨0, 0⟩, Out.val ⟨0, 0, 1⟩⟩, ⟨⟨1, 0⟩, Out.val ⟨1, 0, 3⟩⟩]
+    ∧ (step (run (initCfg (some 1) (some 1)) [Op.push 0 1]) (Op.push 0 2)).2 = Res.full
+    ∧ (step (run (initCfg (some 1) (some 1)) [Op.pop 0]) (Op.pop 0)).2 = Res.full := by decide
 
 /-- non-vacuity of disjunct (d): two pops wait, a push throws, the oldest completes as canceled, the queue lives on -/
 example : (run init [Op.pop 0, Op.pop 1, Op.pushthrow, Op.deliver 0, Op.push 0 5]).completed = [⟨⟨0, 0⟩, Out.canceled⟩]
@@ -223,12 +258,13 @@ open Cocls.Q
 
 /-- `queue<void>` behaves exactly like `queue<T>` with the items reduced to their number: for every operation list
 the `queue<void>` model is the image of the `queue<T>` model (every observable result included, see `step_abs`). -/
-theorem c09_void_refines (ops : List Op) : VQ.run VQ.init ops = abs (Q.run Q.init ops) :=
-  run_init_abs ops
+theorem c09_void_refines (wcap : Option Nat) (ops : List Op) :
+    VQ.run (VQ.initCfg wcap) ops = abs (Q.run (Q.initCfg none wcap) ops) :=
+  run_init_abs wcap ops
 
 /-- every single step of `queue<void>` - new state *and* returned result - is the image of the `queue<T>` step -/
-theorem c09_void_step_refines (s : Q.State) (op : Op) :
-    VQ.step (abs s) op = (abs (Q.step s op).1, forgetRes (Q.step s op).2) := step_abs s op
+theorem c09_void_step_refines (s : Q.State) (op : Op) (hc : s.cap = none) :
+    VQ.step (abs s) op = (abs (Q.step s op).1, forgetRes (Q.step s op).2) := step_abs s op hc
 
 /-- The count is conserved: pushes = counts handed to pops + the counter, under every interleaving. -/
 theorem c09_void_count {t : VQ.State} (h : Reachable t) :
